@@ -11,6 +11,7 @@ import (
 	"github.com/buildbarn/bb-storage/internal/verifstub"
 	"github.com/buildbarn/bb-storage/pkg/blobstore"
 	"github.com/buildbarn/bb-storage/pkg/blobstore/buffer"
+	"github.com/buildbarn/bb-storage/pkg/blobstore/slicing"
 	"github.com/buildbarn/bb-storage/pkg/digest"
 
 	"google.golang.org/grpc/codes"
@@ -49,6 +50,7 @@ const (
 	verifMalLength  // hash one character short
 	verifMalNonHex  // hash with an upper-case hexadecimal letter
 	verifMalNegSize // negative size
+	verifMalNoHash  // digest present, but with an empty hash (and a non-zero size)
 	verifMalKinds
 )
 
@@ -99,6 +101,8 @@ func (w *verifWorld) ref(slot int) *remoteexecution.Digest {
 		d.Hash = "A" + d.Hash[1:]
 	case verifMalNegSize:
 		d.SizeBytes = -d.SizeBytes - 1
+	case verifMalNoHash:
+		d.Hash = ""
 	}
 	w.malformedReached = true
 	return d
@@ -302,7 +306,16 @@ type verifOutcome struct {
 
 func verifRunGet(w *verifWorld, cas blobstore.BlobAccess, ac *verifActionCache, batchSize int, maxTree int64) verifOutcome {
 	ba := NewCompletenessCheckingBlobAccess(ac, cas, batchSize, 10000, maxTree)
-	msg, err := ba.Get(context.Background(), w.objects[verifSlotUnrelated].Digest).ToProto(&remoteexecution.ActionResult{}, 10000)
+	d := w.objects[verifSlotUnrelated].Digest
+	var b buffer.Buffer
+	if vnd.Choose(2) == 1 {
+		// the composite read path must apply the same check (the slicer takes the whole parent)
+		vnd.Cover("y1-composite-read")
+		b = ba.GetFromComposite(context.Background(), d, d, verifWholeSlicer{})
+	} else {
+		b = ba.Get(context.Background(), d)
+	}
+	msg, err := b.ToProto(&remoteexecution.ActionResult{}, 10000)
 	if err == nil {
 		vnd.Assert(msg == proto.Message(w.result), "a message other than the stored ActionResult was returned")
 	}
@@ -530,4 +543,11 @@ func Verif_C13_Y1_TreeBudgetAcrossDirectories() {
 		vnd.Assert(!out.returned && out.err != nil, "ActionResult returned although the combined size of its Trees exceeds the configured maximum")
 	}
 	vnd.Observe("budget", uint64(k), uint64(m), verifB2U(out.returned))
+}
+
+
+type verifWholeSlicer struct{}
+
+func (verifWholeSlicer) Slice(b buffer.Buffer, childDigest digest.Digest) (buffer.Buffer, []slicing.BlobSlice) {
+	return b, nil
 }
